@@ -12,6 +12,10 @@
 (*             control, and the counterexample is a replay target).            *)
 (*  "vose"   - construction of an alias table (Vose) with every pairing order:  *)
 (*             the finished table encodes exactly p_i / sum(p).                *)
+(*  "aliaspos" - an alias table followed by a position inside the chosen       *)
+(*             region (the shape of both ziggurat fall-backs): the position is  *)
+(*             uniform only if it comes from a fresh variate; the variant that   *)
+(*             reuses the keep-or-alias variate must be refuted.                 *)
 (*  "dice"   - floor(a + (b-a+1) u): in range, every face the same measure.    *)
 (*  "trials" - geometric / binomial / negative binomial as Bernoulli trial     *)
 (*             processes: range of the result, also for p = 1.                 *)
@@ -56,24 +60,26 @@ LoadedExact == (st.c = Den /\ SumSeq(st.k) = Den) => \A i \in 1..Len(st.k) : st.
 
 (* ------------------------------------------------------------ "vose" *)
 (* work is kept in units of 1/S (S = sum of the vector): work[i] = k[i] * n, "one" = S *)
-VoseInit ==
-  st \in {LET n == Len(v)  S == SumSeq(v)  w == [i \in 1..n |-> v[i] * n] IN
-          [k |-> v, S |-> S, work |-> w,
-           small |-> {i \in 1..n : w[i] < S}, large |-> {i \in 1..n : w[i] >= S},
-           q |-> [i \in 1..n |-> -1], al |-> [i \in 1..n |-> 0], paired |-> {}] : v \in Vectors}
-VosePair ==
-  \E sm \in st.small, g \in st.large :
-    LET wg == st.work[g] + st.work[sm] - st.S IN
-    st' = [st EXCEPT !.q[sm] = st.work[sm], !.al[sm] = g - 1, !.paired = @ \cup {sm},
-                     !.work[g] = wg,
-                     !.small = (@ \ {sm}) \cup (IF wg < st.S THEN {g} ELSE {}),
-                     !.large = IF wg < st.S THEN @ \ {g} ELSE @]
+VoseStart(v) ==
+  LET n == Len(v)  S == SumSeq(v)  w == [i \in 1..n |-> v[i] * n] IN
+  [k |-> v, S |-> S, work |-> w,
+   small |-> {i \in 1..n : w[i] < S}, large |-> {i \in 1..n : w[i] >= S},
+   q |-> [i \in 1..n |-> -1], al |-> [i \in 1..n |-> 0], paired |-> {}]
+VoseInit == st \in {VoseStart(v) : v \in Vectors}
+PairStep(s, sm, g) ==
+  LET wg == s.work[g] + s.work[sm] - s.S IN
+  [s EXCEPT !.q[sm] = s.work[sm], !.al[sm] = g - 1, !.paired = @ \cup {sm},
+            !.work[g] = wg,
+            !.small = (@ \ {sm}) \cup (IF wg < s.S THEN {g} ELSE {}),
+            !.large = IF wg < s.S THEN @ \ {g} ELSE @]
+DrainStep(s, i) == [s EXCEPT !.q[i] = s.S, !.small = @ \ {i}, !.large = @ \ {i}]
+VosePair == \E sm \in st.small, g \in st.large : st' = PairStep(st, sm, g)
 VoseDrainLarge ==
   /\ st.small = {} /\ st.large # {}
-  /\ \E g \in st.large : st' = [st EXCEPT !.q[g] = st.S, !.large = @ \ {g}]
+  /\ \E g \in st.large : st' = DrainStep(st, g)
 VoseDrainSmall ==                      \* only reachable through rounding in floating point; kept for fidelity
   /\ st.large = {} /\ st.small # {}
-  /\ \E sm \in st.small : st' = [st EXCEPT !.q[sm] = st.S, !.small = @ \ {sm}]
+  /\ \E sm \in st.small : st' = DrainStep(st, sm)
 VoseNext == VosePair \/ VoseDrainLarge \/ VoseDrainSmall
 VoseDone == st.small = {} /\ st.large = {}
 VoseConserved ==      \* the columns still to be filled hold exactly one unit each
@@ -85,6 +91,40 @@ VoseTableOK ==
     /\ \A i \in 1..Len(st.k) : st.q[i] >= 0 /\ st.q[i] <= st.S /\ st.al[i] >= 0 /\ st.al[i] < Len(st.k)
     /\ \A i \in 1..Len(st.k) : AliasEncoded(st.q, st.al, st.S, i) = st.k[i] * Len(st.k)   \* = n S p_i/sum(p)
     /\ \A i \in 1..Len(st.k) : st.k[i] = 0 => (st.q[i] = 0 /\ \A j \in 1..Len(st.k) : (st.al[j] = i - 1 => st.q[j] = st.S))
+
+(* ------------------------------------------------------------ "aliaspos" *)
+(* A two-stage draw: an alias table picks a region, then a position inside the region.  Both   *)
+(* ziggurat fall-backs work like this (alias table over the overhangs of the density, then a    *)
+(* point of the chosen overhang).  Demanded: the position is uniform whatever region was picked, *)
+(* i.e. every (region, position) cell receives the same share of the region's probability.       *)
+(* Variant "intended" takes the position from a fresh variate.  Variant "reuse" takes it from    *)
+(* the variate that decided between the column and its alias; TLC must refute it (negative       *)
+(* control: a keep-decision "v < q" leaves v uniform on [0,q) only).                              *)
+MinOf(S) == CHOOSE x \in S : \A y \in S : x <= y
+RECURSIVE VoseRun(_)
+VoseRun(s) == IF s.small # {} /\ s.large # {} THEN VoseRun(PairStep(s, MinOf(s.small), MinOf(s.large)))
+              ELSE IF s.small \cup s.large # {} THEN VoseRun(DrainStep(s, MinOf(s.small \cup s.large)))
+              ELSE s
+ExactVectors == {v \in Vectors : SumSeq(v) = Den}
+(* cells of the decision variate and of the position: 0..Den-1 (aligned with every q, which is a multiple of 1/Den) *)
+APInit == st \in {[k |-> v, t |-> VoseRun(VoseStart(v)), c |-> 1, v |-> 0, w |-> 0, done |-> FALSE,
+                    joint |-> [j \in 1..Len(v) |-> [pos \in 0..(Den - 1) |-> 0]]] : v \in ExactVectors}
+APNext ==
+  /\ ~st.done
+  /\ LET n == Len(st.k)
+         \* q is in units of 1/S with S = Den for exact vectors: keep iff the decision cell lies below q
+         region == IF st.v < st.t.q[st.c] THEN st.c ELSE st.t.al[st.c] + 1
+         pos == IF Variant = "reuse" THEN st.v ELSE st.w
+         lastw == Variant = "reuse" \/ st.w = Den - 1
+         lastv == st.v = Den - 1
+     IN st' = [st EXCEPT !.joint[region][pos] = @ + 1,
+                         !.w = IF lastw THEN 0 ELSE @ + 1,
+                         !.v = IF lastw THEN (IF lastv THEN 0 ELSE @ + 1) ELSE @,
+                         !.c = IF lastw /\ lastv THEN (IF st.c = n THEN 1 ELSE @ + 1) ELSE @,
+                         !.done = lastw /\ lastv /\ st.c = n]
+APUniform == st.done => \A j \in 1..Len(st.k) : \A p1, p2 \in 0..(Den - 1) : st.joint[j][p1] = st.joint[j][p2]
+APMarginal == st.done => \A j \in 1..Len(st.k) :      \* and the regions keep their probabilities
+                SumSeq([p \in 1..Den |-> st.joint[j][p - 1]]) * Den = st.k[j] * Len(st.k) * Den * (IF Variant = "reuse" THEN 1 ELSE Den)
 
 (* ------------------------------------------------------------ "dice" *)
 DiceUD == 60
@@ -121,6 +161,7 @@ TrialsRange ==
       [] st.kind = "negative_binomial" -> st.res >= 0 /\ (st.pone => st.res = 0)
 (* the stated probability mass functions agree with the trial processes at p = 1 *)
 TrialsPmfAtOne ==
+  st.done =>
   /\ \A M \in 1..4 : LET db == DiscBins([s |-> "geometric", par |-> <<One>>, maxv |-> M, v2 |-> <<>>]) IN
        db.bins[1][3] = db.d /\ \A i \in 2..Len(db.bins) : db.bins[i][4] = 0
   /\ \A n \in 1..4 : LET db == DiscBins([s |-> "binomial", par |-> <<<<n, 1>>, One>>, maxv |-> n, v2 |-> <<>>]) IN
@@ -133,21 +174,21 @@ CaseWellFormed(c) ==
   /\ c.s \in AllSamplers
   /\ Admissible(c.s, c.par, c.v1, c.v2)
   /\ (c.kind = "cont") = (c.s \in Continuous)
-  /\ c.kind = "cont" => Len(c.edges) \in {63, 255}
+  /\ c.kind = "cont" => (Len(c.pw) = Len(c.edges) + 1 /\ SumSeq(c.pw) = c.pd /\ c.pd <= 46340 /\ \A i \in 1..Len(c.pw) : c.pw[i] >= 1)
   /\ c.kind = "disc" => PmfWellFormed(c)
-CasesWellFormed == \A i \in 1..Len(FitCases) : CaseWellFormed(FitCases[i])
-CaseIdsDistinct == \A i, j \in 1..Len(FitCases) : i # j => FitCases[i].id # FitCases[j].id
-EverySamplerHasACase == \A s \in AllSamplers : \E i \in 1..Len(FitCases) : FitCases[i].s = s
+CasesWellFormed == st = "cases" => \A i \in 1..Len(FitCases) : CaseWellFormed(FitCases[i])
+CaseIdsDistinct == st = "cases" => \A i, j \in 1..Len(FitCases) : i # j => FitCases[i].id # FitCases[j].id
+EverySamplerHasACase == st = "cases" => \A s \in AllSamplers : \E i \in 1..Len(FitCases) : FitCases[i].s = s
 
 (* how many top bits of a 64-bit keep-probability the harness reports, so that the table check stays in 32 bits *)
 QBits(n, d) == CHOOSE qb \in 4..20 : /\ 2 * (n + 1) * d * Pow(2, qb) < 1073741824
                                      /\ (qb = 20 \/ 2 * (n + 1) * d * Pow(2, qb + 1) >= 1073741824)
 
-FitExport ==
-  [i \in 1..Len(FitCases) |->
-     LET c == FitCases[i]  sp == Support(c.s, c.par, c.v2) IN
+FitExport(cases) ==        \* (operators with a parameter are not pre-evaluated by TLC at start-up)
+  [i \in 1..Len(cases) |->
+     LET c == cases[i]  sp == Support(c.s, c.par, c.v2) IN
      [idx |-> i, id |-> c.id, s |-> c.s, kind |-> c.kind, big |-> c.big, par |-> c.par, v1 |-> c.v1, v2 |-> c.v2,
-      lo |-> sp.lo, hi |-> sp.hi, org |-> c.org, edges |-> c.edges,
+      lo |-> sp.lo, hi |-> sp.hi, org |-> c.org, edges |-> c.edges, nbins |-> Len(c.pw),
       bins |-> IF c.kind = "disc" THEN [j \in 1..Len(DiscBins(c).bins) |-> <<DiscBins(c).bins[j][1], DiscBins(c).bins[j][2]>>] ELSE <<>>,
       qb |-> IF c.s = "alias" THEN QBits(Len(c.v2), DiscBins(c).d) ELSE 0]]
 
@@ -159,31 +200,33 @@ Ends == {0, UDT - 1}
 RECURSIVE Cums(_, _, _)
 Cums(k, i, acc) == IF i > Len(k) THEN {} ELSE {acc + k[i]} \cup Cums(k, i + 1, acc + k[i])
 NearFrac(num, den) == {x \in {(num * UDT) \div den - 1, (num * UDT) \div den} : x >= 0 /\ x < UDT}   \* cells next to num/den
-ReplayVectors == {v \in Vectors : Abs(SumSeq(v) - Den) * TolDen * 2 <= TolNum * Den}  \* clear of the rounding of the tolerance test
+ReplayVectors(V) == {v \in V : Abs(SumSeq(v) - Den) * TolDen * 2 <= TolNum * Den}  \* clear of the rounding of the tolerance test
 VecCells(v) == Ends \cup UNION {NearFrac(b, Den) : b \in Cums(v, 1, 0)}
 ColCells(n) == Ends \cup UNION {NearFrac(j, n) : j \in 1..(n - 1)}
 DicePairs == {<<1, 6>>, <<0, 1>>, <<-3, 4>>, <<10, 12>>, <<-7, -3>>}
 BernPs == {<<0, 1>>, <<1, 1>>, <<1, 2>>, <<3, 10>>, <<1, 1000>>, <<999, 1000>>}
 Target(s, k, a, b, p, x) == [s |-> s, k |-> k, d |-> Den, a |-> a, b |-> b, p |-> p, tlo |-> x, thi |-> x + 1, ud |-> UDT]
-RuleTargets ==
-  UNION {{Target("loaded_dice", v, 0, 0, Zero, x) : x \in VecCells(v)} : v \in ReplayVectors}
-  \cup UNION {{Target("alias", v, 0, 0, Zero, x) : x \in ColCells(Len(v))} : v \in ReplayVectors}
+RuleTargets(V) ==
+  UNION {{Target("loaded_dice", v, 0, 0, Zero, x) : x \in VecCells(v)} : v \in ReplayVectors(V)}
+  \cup UNION {{Target("alias", v, 0, 0, Zero, x) : x \in ColCells(Len(v))} : v \in ReplayVectors(V)}
   \cup UNION {{Target("dice", <<>>, ab[1], ab[2], Zero, x) : x \in ColCells(ab[2] - ab[1] + 1)} : ab \in DicePairs}
   \cup UNION {{Target("bernoulli", <<>>, 0, 0, p, x) : x \in Ends \cup NearFrac(p[1], p[2])} : p \in BernPs}
 
-ExportDone ==
-  IF "C16EXPORT" \in DOMAIN IOEnv
-  THEN JsonSerialize(IOEnv.C16EXPORT, [fit |-> FitExport, rules |-> RuleTargets, den |-> Den, udt |-> UDT])
+ExportDone(m) ==
+  IF m = "cases" /\ "C16EXPORT" \in DOMAIN IOEnv
+  THEN JsonSerialize(IOEnv.C16EXPORT, [fit |-> FitExport(FitCases), rules |-> RuleTargets(Vectors), den |-> Den, udt |-> UDT])
   ELSE TRUE
 
 (* ------------------------------------------------------------ dispatch *)
 Init == CASE Model = "loaded" -> LoadedInit
           [] Model = "vose" -> VoseInit
+          [] Model = "aliaspos" -> APInit
           [] Model = "dice" -> DiceInit
           [] Model = "trials" -> TrialsInit
-          [] Model = "cases" -> st = "cases" /\ ExportDone
+          [] Model = "cases" -> st = "cases" /\ ExportDone(Model)
 Next == CASE Model = "loaded" -> LoadedNext
           [] Model = "vose" -> VoseNext
+          [] Model = "aliaspos" -> APNext
           [] Model = "dice" -> DiceNext
           [] Model = "trials" -> TrialsNext
           [] Model = "cases" -> FALSE
